@@ -64,7 +64,7 @@ def encField (f : PField V) : OVal V :=
     ("setup_case_insensitive", .bool f.ci),
     -- what `parse_value` reads besides: not deprecated, no discriminator; the declared type (by its id) or None
     ("field", .obj "Field" [("deprecated", .bool false)]), ("deprecated_to", .none),
-    ("type", match f.ty with | none => .none | some t => .cls t), ("discriminator_map", .none),
+    ("type", match f.ty with | none => .none | some t => .cls t), ("discriminator_types", .seq .tuple []), ("discriminator_map", .none), ("discriminator_keys", .seq .list []),
     ("name", .int f.name), ("EXCLUDED", .obj "Excluded" [])]
 
 /-- the `Options` an `Opts` stands for (attributes the predicates read) -/
@@ -462,6 +462,9 @@ theorem ga_type : getattr (encField f) "type" = .ok (match f.ty with | none => .
   simp [encField, getattr, lookupAttr, pure, Except.pure]
 theorem ga_dmap : getattr (encField f) "discriminator_map" = .ok .none := by
   simp [encField, getattr, lookupAttr, pure, Except.pure]
+theorem ga_dtypes : getattr (encField f) "discriminator_types" = .ok (.seq .tuple []) := by
+  simp [encField, getattr, lookupAttr, pure, Except.pure]
+theorem truthy_etuple : truthy (OVal.seq .tuple [] : OVal V) = .ok false := rfl
 theorem ga_name : getattr (encField f) "name" = .ok (.int f.name) := by
   simp [encField, getattr, lookupAttr, pure, Except.pure]
 theorem ga_excluded : getattr (encField f) "EXCLUDED" = .ok (.obj "Excluded" []) := by
@@ -515,7 +518,7 @@ theorem C05_gen_parse_value (W : Obj.World V) (W5 : C05.World V) (o : Opts V) (f
     unfold Parse.parse_value parseValue convert
     cases hty : f.ty with
     | none =>
-      simp only [getattr_ctx_options, bind, Except.bind, pure, Except.pure, ga_field, ga_deprecated, ga_type, ga_dmap,
+      simp only [getattr_ctx_options, bind, Except.bind, pure, Except.pure, ga_field, ga_deprecated, ga_type, ga_dmap, ga_dtypes, truthy_etuple,
         ga_name, ga_excluded, truthy_bool, truthy_none, hty, Bool.false_eq_true, if_false, Bool.not_false, if_true]
       simp [Except.map, decodePV, optOf, errsOf, encCtx, getattr, lookupAttr, pure, Except.pure]
     | some t =>
@@ -523,7 +526,7 @@ theorem C05_gen_parse_value (W : Obj.World V) (W5 : C05.World V) (o : Opts V) (f
       cases hfp : W5.fp t v with
       | some y =>
         rw [hfp] at hc
-        simp only [getattr_ctx_options, bind, Except.bind, pure, Except.pure, ga_field, ga_deprecated, ga_type, ga_dmap,
+        simp only [getattr_ctx_options, bind, Except.bind, pure, Except.pure, ga_field, ga_deprecated, ga_type, ga_dmap, ga_dtypes, truthy_etuple,
           ga_name, ga_excluded, ga_transformer, truthy_bool, truthy_none, truthy_cls, hty, he, hc, Bool.false_eq_true, if_false,
           Bool.not_false, Bool.not_true, if_true, tryCatch, tryCatchThe, MonadExceptOf.tryCatch, Except.tryCatch]
         simp only [hfp]
@@ -533,7 +536,7 @@ theorem C05_gen_parse_value (W : Obj.World V) (W5 : C05.World V) (o : Opts V) (f
         have hh := handle_error_collecting W o hcol []
         cases hoe : getOnError o f <;> cases hreq : isRequired Legacy.none o f <;> cases hdf : getDefault W5 o f false <;>
           simp only [hoe, hreq, hdf] at h1 h2 h3 <;>
-          simp only [getattr_ctx_options, bind, Except.bind, pure, Except.pure, ga_field, ga_deprecated, ga_type, ga_dmap,
+          simp only [getattr_ctx_options, bind, Except.bind, pure, Except.pure, ga_field, ga_deprecated, ga_type, ga_dmap, ga_dtypes, truthy_etuple,
             ga_name, ga_excluded, ga_transformer, ga_exclude, ga_preserve, truthy_bool, truthy_none, truthy_cls, hty, he, hc,
             h1, h2, h3, hh, encOptVal, invalid_value_eq W W5 hw.copy o f hl hcol, Bool.false_eq_true, if_false, Bool.not_false, Bool.not_true, if_true, tryCatch, tryCatchThe,
             MonadExceptOf.tryCatch, Except.tryCatch, Exc.isA, List.contains_cons, List.contains_nil, encOnErr, eq, eqS,
